@@ -42,6 +42,12 @@ def programs():
     out.append({"name": "shared-context[A|B]", "shared": True, "seq": [{"k": "shared_par", "labels": ["A", "B"]}]})
     out.append({"name": "shared-context[A|B|C]", "shared": True, "seq": [{"k": "shared_par", "labels": ["A", "B", "C"]}]})
     out.append({"name": "wfc+invoke+W+S", "seq": P.U("N") + P.U("I") + P.U("W") + S(9)})
+    # every operation kind in every kind of enclosing context (ids and parent links per kind)
+    kinds = lambda: (P.U("N") + P.U("I") + P.U("W") + P.U("K") + P.U("C") + P.U("R") + S("s")  # noqa: E731
+                     + [{"k": "child", "body": P.U("N") + S("inner")}])
+    out.append({"name": "child[every-kind]", "seq": [{"k": "child", "body": kinds()}]})
+    out.append({"name": "par[every-kind|S]", "seq": [{"k": "par", "cfg": ac, "branches": [kinds(), S("side")]}]})
+    out.append({"name": "map2[wfc.W.S]", "seq": [{"k": "map", "items": [1, 2], "cfg": ac, "body": P.U("N") + P.U("W") + S("m")}]})
     out.append({"name": "par[R|W.S]", "seq": [{"k": "par", "cfg": ac, "branches": [P.U("R"), [{"k": "wait", "s": 1}] + S("z")]}]})
     out.append({"name": "first[fast|slow.S]+S", "seq": [{"k": "par", "cfg": {"cc": "first"}, "branches": [S("w"), SLOW(2, "l") + S("l2")]}] + S("after")})
     return out
@@ -191,7 +197,7 @@ def run(ctx):
                               "replay": {"cross_unit": True}})
             rev.setdefault(i, p)
     cov["distinct_positions"] = len(glob)
-    cov["bounds"] = ("16 program shapes + 2 in which sibling branches issue operations on the enclosing context (shared call counter, line-level preemption in threading.py) (nesting <=3, <=3 branches/items, sibling maps, child-in-branch-in-map, callbacks inside "
+    cov["bounds"] = ("19 program shapes (three placing every operation kind inside a child context, a parallel branch and a map item) + 2 in which sibling branches issue operations on the enclosing context (shared call counter, line-level preemption in threading.py) (nesting <=3, <=3 branches/items, sibling maps, child-in-branch-in-map, callbacks inside "
                      "branches, max_concurrency, early completion); per shape every single crash point, every schedule with "
                      "<=1 (quick) / <=2 (thorough) deviations, policies rtb/low/high/rr; the relation position->id is "
                      "checked within each execution, across all executions of a unit and across all programs")
